@@ -14,6 +14,7 @@ package c14
 import (
 	_ "crypto/sha256"
 	_ "crypto/sha512"
+	"encoding/hex"
 	"encoding/json"
 	"fmt"
 	"os"
@@ -38,7 +39,11 @@ func TestVerif(t *testing.T) {
 		for _, c := range common.ReadReplay(run.Replay) {
 			switch c["kind"] {
 			case "A":
-				applyCase(c["line"])
+				if strings.HasPrefix(c["line"], "T ") {
+					tagCase(c["line"])
+				} else {
+					applyCase(c["line"])
+				}
 			case "M":
 				var mc MergeCase
 				if err := json.Unmarshal([]byte(c["case"]), &mc); err != nil {
@@ -65,6 +70,9 @@ func TestVerif(t *testing.T) {
 	applyFixed()
 	for i := 0; i < na; i++ {
 		applyCase(genApplyLine(ra))
+	}
+	for i := 0; i < run.Scale(100, 5000); i++ {
+		tagCase(genTagLine(ra))
 	}
 	nm := run.Scale(150, 120000)
 	rm := r.Fork()
@@ -250,7 +258,11 @@ func xLine(c *E2ECase, res *E2EResult, s int) (string, string, bool) {
 			continue
 		}
 		if e.Class == "idx-put" {
-			puts = append(puts, keyList(append([]int{}, e.PutList...)))
+			b := keyList(append([]int{}, e.PutList...))
+			if b == "-" {
+				b = "e" // an empty index body (distinct from "no PUT at all")
+			}
+			puts = append(puts, b)
 		}
 		f := 0
 		if e.Fail {
@@ -271,7 +283,12 @@ func xLine(c *E2ECase, res *E2EResult, s int) (string, string, bool) {
 	if c.SkipGC {
 		sg = 1
 	}
-	in := fmt.Sprintf("X %d %s %s %s", sg, keyList(c.PreIndex[s]), strings.Join(specs, ","), strings.Join(evs, " "))
+	// the last token carries the whole end-to-end case (with the recorded schedule) so that a
+	// mismatch on this projected line can be re-run under the oracle (bin/check --replay)
+	rc := c.clone()
+	rc.Decisions = res.Decisions
+	js, _ := json.Marshal(rc)
+	in := fmt.Sprintf("X %d %s %s %s J%s", sg, keyList(c.PreIndex[s]), strings.Join(specs, ","), strings.Join(evs, " "), hex.EncodeToString(js))
 	// the body of every index PUT (the batch applied to the index that was fetched) is observable too
 	ps := "-"
 	if len(puts) > 0 {
@@ -285,7 +302,7 @@ func xLine(c *E2ECase, res *E2EResult, s int) (string, string, bool) {
 // of concurrent operations on one subject that already has two live referrers.
 func exploreE2E(t *testing.T, kinds []string, skipGC bool, maxFaults, limit int) int {
 	base := &E2ECase{Seed: 1, SkipGC: skipGC, NSubjects: 1, MaxFaults: maxFaults, Explore: true}
-	base.Mans = []Man{{Subject: 0, Kind: "image", ConfigMT: cfgTypes[0], Salt: 0}, {Subject: 0, Kind: "artifact", ArtifactType: artTypes[1], Salt: 1}}
+	base.Mans = []Man{{Subject: 0, Kind: "image", ConfigMT: cfgTypes[0], Salt: 0}, {Subject: 0, Kind: "artifact", ArtifactType: artTypes[1], Salt: 1, SubjVar: 1}}
 	base.PreLive = []int{0, 1}
 	base.PreIndex = [][]int{{0, 1, 0}}
 	var ops []Op
@@ -295,7 +312,8 @@ func exploreE2E(t *testing.T, kinds []string, skipGC bool, maxFaults, limit int)
 			ops = append(ops, Op{ID: i, Kind: "delete", Man: del})
 			del++
 		} else {
-			base.Mans = append(base.Mans, Man{Subject: 0, Kind: "image", ConfigMT: cfgTypes[1], Ann: map[string]string{"k": fmt.Sprint(i)}, Salt: 10 + i})
+			// the pushed referrers name the subject with different descriptors (same digest)
+			base.Mans = append(base.Mans, Man{Subject: 0, Kind: "image", ConfigMT: cfgTypes[1], Ann: map[string]string{"k": fmt.Sprint(i)}, Salt: 10 + i, SubjVar: i % 4})
 			ops = append(ops, Op{ID: i, Kind: "push", Man: len(base.Mans) - 1})
 		}
 	}
